@@ -12,7 +12,7 @@
     not, for about a fifth of the values; see the [_refuted] theorem). *)
 From Coq Require Import ZArith List Bool Permutation.
 From NS Require Import Base.NoteSeq Gen.G03 Model.TempoMap Model.MidiGlue
-  Proofs.TempoMap Proofs.MidiGlue Proofs.MidiGlueEx.
+  Proofs.TempoMap Proofs.MidiGlue Proofs.MidiGlueEx Proofs.MidiGlueExt Proofs.MidiGlueSig.
 Import ListNotations.
 Local Open Scope Z_scope.
 
@@ -152,3 +152,44 @@ Theorem C03_inexact_channel_refuted :
     map n_end (s_notes out) <> map (fun n => snap_of s (n_end n)) (s_notes s).
 Proof. exact f19_inexact_channel_changes_tempo. Qed.
 Print Assumptions C03_inexact_channel_refuted.
+
+(** [ext] "the result does not depend on the order in which tempos are stored":
+    for tempos at distinct times the written tempo map is the same for every
+    storage order (false before notes/C03-fix-1.diff, F8). *)
+Theorem C03_tempo_storage_order_irrelevant : forall s s', Permutation (s_tempos s) (s_tempos s') ->
+  NoDup (map tp_time (s_tempos s)) ->
+  write_u0 s = write_u0 s' /\ write_scales s = write_scales s'.
+Proof. exact tempo_order_irrelevant. Qed.
+Print Assumptions C03_tempo_storage_order_irrelevant.
+
+(** [ext] The property's quantifier (every note at least two ticks of the
+    slowest tempo long, no two overlapping notes of one pitch in one
+    (instrument, program, is_drum) group) implies the precondition under which
+    the idealised channel describes pretty_midi's note-on / note-off pairing. *)
+Theorem C03_quantifier_implies_channel_precondition : forall U s, valid s = true -> us_bound U s = true ->
+  forallb (long_enough U) (s_notes s) = true -> rt_no_overlap (s_notes s) = true ->
+  chan_pre (write s) = true.
+Proof. exact chan_pre_holds. Qed.
+Print Assumptions C03_quantifier_implies_channel_precondition.
+
+Example C03_quantifier_nonvacuous :
+  us_bound 600000 ex_seq = true /\ forallb (long_enough 600000) (s_notes ex_seq) = true /\
+  rt_no_overlap (s_notes ex_seq) = true /\ chan_pre (write ex_seq) = true /\
+  NoDup (map tp_time (s_tempos ex_seq)).
+Proof. exact ex_quantifier_ok. Qed.
+Print Assumptions C03_quantifier_nonvacuous.
+
+(** [ext] Time and key signatures: the lists read back are the input lists in
+    stable tick order (a default 4/4 first when no signature has time <= 0),
+    times snapped to the tick grid, numerator / denominator / key unchanged, the
+    mode normalised to MAJOR / MINOR (the +12 offset undone).  Hence the
+    signature in effect from each tick on is the input's (the one stored later
+    wins among signatures that share a tick). *)
+Theorem C03_midi_roundtrip_signatures : forall wr s out, valid s = true -> chan_exact wr s ->
+  roundtrip wr s = Some out ->
+  s_tsigs out = map (fun e => mkTsig (tt (write_u0 s) (write_scales s) (fst e)) (fst (snd e)) (snd (snd e)))
+                    (tsort (tsig_events s)) /\
+  s_ksigs out = map (fun e => mkKsig (tt (write_u0 s) (write_scales s) (fst e)) (fst (snd e)) (norm_mode (snd (snd e))))
+                    (tsort (ksig_events s)).
+Proof. exact roundtrip_signatures. Qed.
+Print Assumptions C03_midi_roundtrip_signatures.
